@@ -46,6 +46,7 @@ type Node struct {
 	CommitErrAt map[uint64]bool
 	// blocking SPI: heights at which RequestNewBlockProposal / ValidateBlockProposal wait for their context
 	BlockReq, BlockVal map[uint64]bool
+	BlockCommittee     map[uint64]bool // heights whose RequestOrderedCommittee fails for as long as its context lives
 	SpiCalls []*SpiCall
 }
 
@@ -73,6 +74,19 @@ func newNode(x *X, idx int) *Node {
 	n := &Node{x: x, Idx: idx, C: c, Comm: &kit.Comm{}, Proofs: map[uint64][]byte{}, Blocks: map[uint64]interface{}{}, CommitErrAt: map[uint64]bool{}, BlockReq: map[uint64]bool{}, BlockVal: map[uint64]bool{}}
 	id := c[idx].ID
 	n.Mem = &kit.Membership{Me: id, Committee: c}
+	n.BlockCommittee = map[uint64]bool{}
+	n.Mem.Gate = func(ctx context.Context, h primitives.BlockHeight) error {
+		if !n.BlockCommittee[uint64(h)] {
+			return nil
+		}
+		// the committee contract is unavailable: the call only comes back (with an error) once its context ends
+		n.ev("spi-committee(h%d) enter ctxerr=%v", h, ctx.Err() != nil)
+		d := ctx.Done()
+		vs.Recv(d)
+		<-d
+		n.ev("spi-committee(h%d) return error", h)
+		return ctx.Err()
+	}
 	n.BU = &kit.BlockUtils{Me: id}
 	n.BU.ReqGate = func(ctx context.Context, h primitives.BlockHeight) { n.spi("request", uint64(h), ctx, n.BlockReq[uint64(h)]) }
 	n.BU.ValGate = func(ctx context.Context, h primitives.BlockHeight) { n.spi("validate", uint64(h), ctx, n.BlockVal[uint64(h)]) }
